@@ -803,6 +803,31 @@ def paired_runs(ctx):
             dd['class'] = 'c07-negative-accepted'
             dd['negative_query'] = neg.tolist()
             ctx.violation('raw input containing a negative value was mapped instead of rejected', dd)
+        # (e') the same verdicts when the file is REPLACED at the same path between two runs of one process
+        # (no scratch directory, so the path string reaches the scan unchanged): clean then negative -> the second
+        # run is rejected; negative then clean -> the second run succeeds
+        if k % 2 == 0:
+            first_clean = rng.random() < 0.7
+            steps = [dict(query=raw, normalization='raw', encoding=rng.choice(['dense', 'csr', 'csc'])),
+                     dict(query=neg, normalization='raw', encoding=enc_neg, chunks=chunks_neg)]
+            if not first_clean:
+                steps.reverse()
+            hist = paired.run_history_same_path(ctx, sc, f'nh{k}', steps, **v1)
+            ctx.count(('c07', k, 'negative-history'), nontrivial=True)
+            ctx.dist('relation', 'negative-raw-after-' + ('clean' if first_clean else 'negative') + '-run-on-the-same-path')
+            neg_res, clean_res = (hist[1], hist[0]) if first_clean else (hist[0], hist[1])
+            dd = dict(desc)
+            dd['negative_query'] = neg.tolist()
+            dd['order'] = 'clean, then negative' if first_clean else 'negative, then clean'
+            if neg_res['ok'] or (neg_res['output'] or {}).get('results'):
+                dd['class'] = 'c07-negative-accepted'
+                ctx.violation(f'two runs on one path in one process ({dd["order"]}): raw input containing a negative '
+                              'value was mapped instead of rejected', dd)
+            elif not clean_res['ok']:
+                dd['class'] = 'c07-run-raises'
+                dd['error'] = clean_res['error']
+                ctx.violation(f'two runs on one path in one process ({dd["order"]}): the run on the non-negative file '
+                              f'raised {clean_res["error"]}', dd)
         if k < 2:
             ctx.sample({'tree': sc.tree.data, 'raw': raw.tolist()[:2], 'config': vany})
 
